@@ -9,7 +9,12 @@ Phases: (1) build every prog twice; (2) after each failing build (graph function
 input check failing, unsupported operator) rebuild a prog; (3) `threads` threads build all progs
 `rounds` times, interleaved with failing builds; (4) a definition whose writer raises
 (name longer than 255 bytes), then rebuild; (5) earlier arbitrary use of the library
-(patterns, events, envelopes) then rebuild; (6) BaseException probe (observation only)."""
+(patterns, events, envelopes) then rebuild; (5a) rebuild under a changed allocation history (junk objects,
+definitions kept alive, gc.collect()); (5b) description reads; (6) BaseException probe.  In phases 1, 2b, 3, 5,
+5a, 5b the Python-level definitions of c20_extras.good() are rebuilt as well; (2b) runs every failing scenario
+of c20_extras.fails() (a build failing at each point of SynthDef._build, Exception and BaseException
+subclasses), each followed by the context / outside-unit / class-state checks and rebuilds; (7) nested-build
+probe (observation only, last)."""
 import json, os, sys, threading
 import sc3
 if os.environ.get('SC3_MODE', 'nrt') == 'rt':
